@@ -286,7 +286,7 @@ PARTS = {
         mc={"quick": ["MC_Handler_init.cfg"], "thorough": ["MC_Handler_init.cfg", "MC_Handler_tiny.cfg", "MC_Handler_atkq.cfg"]},
         goals_cfg="MC_Handler_goal.cfg",
         goals=["GoalSecondWay", "GoalNoRecordHs", "GoalRekeyPending", ("GoalRekeyReleasesPending", "MC_Handler_goalenr.cfg"), "GoalEnrlessDone", "GoalTimeoutAll", "GoalPendingAfterExpiredChallenge", "GoalBadSigKeepsChallenge", "GoalBadThenGoodHs", "GoalWayAfterReplay", ("GoalSendAfterRotateBack", "MC_Handler_goalrot.cfg"),
-               ("GoalForgedHs", "MC_Handler_goalatk.cfg"), ("GoalReplayedHs", "MC_Handler_goalatk.cfg"), ("GoalJunkSigHs", "MC_Handler_goalatk.cfg"), ("GoalForgedHs", "MC_Handler_goaled.cfg"), ("GoalJunkSigHs", "MC_Handler_goaled.cfg"), ("GoalReplayUnverifiableHs", "MC_Handler_goalsib.cfg"), ("GoalForeignWayOnHs", "MC_Handler_goalsib.cfg"), ("GoalReplayMsgFromSibling", "MC_Handler_goalsib.cfg"), "GoalWayTwiceWithSession", ("GoalZeroKeyAfterRekey", "MC_Handler_goalzero.cfg"), ("GoalForeignEnrAnswer", "MC_Handler_goalnoenr.cfg"), ("GoalLateEnrAnswer", "MC_Handler_goalnoenr.cfg"), ("GoalSecondRequestEnrless", "MC_Handler_goalnoenr.cfg")],
+               ("GoalForgedHs", "MC_Handler_goalatk.cfg"), ("GoalReplayedHs", "MC_Handler_goalatk.cfg"), ("GoalJunkSigHs", "MC_Handler_goalatk.cfg"), ("GoalForgedHs", "MC_Handler_goaled.cfg"), ("GoalJunkSigHs", "MC_Handler_goaled.cfg"), ("GoalReplayUnverifiableHs", "MC_Handler_goalsib.cfg"), ("GoalForeignWayOnHs", "MC_Handler_goalsib.cfg"), ("GoalReplayMsgFromSibling", "MC_Handler_goalsib.cfg"), "GoalWayTwiceWithSession", ("GoalZeroKeyAfterRekey", "MC_Handler_goalzero.cfg"), ("GoalForeignEnrAnswer", "MC_Handler_goalnoenr.cfg"), ("GoalLateEnrAnswer", "MC_Handler_goalnoenr.cfg"), ("GoalSecondRequestEnrless", "MC_Handler_goalnoenr.cfg"), ("GoalAnswerFirstOfTwoEnrless", "MC_Handler_goalnoenr.cfg")],
         sim={"quick": [dict(cfg="MC_Handler_sim.cfg", num=160, depth=40)], "thorough": [dict(cfg="MC_Handler_sim.cfg", num=1000, depth=60)]},
         fixed_behaviours=[
             # more outcomes at once than the event channel to the application holds (50): 56 requests to a silent peer, nobody reads events
